@@ -91,6 +91,10 @@ type netMsg struct {
 	m  pb.Message
 }
 
+// CurrentOrder is the processReady operation order the driver follows (set it from
+// ExtractOrder(RepoPath()) before creating clusters; defaults to the built-in order).
+var CurrentOrder = BuiltinOrder("not extracted")
+
 // Cluster is the global state.
 type Cluster struct {
 	Opt     Options
@@ -225,7 +229,7 @@ func (c *Cluster) Apply(ev Event) *Record {
 func (c *Cluster) apply(ev Event, rec *Record) {
 	ctx := context.Background()
 	var nd *nodeRT
-	if ev.K != "drop" {
+	if ev.K != "drop" && ev.K != "gc" {
 		nd = c.nodes[ev.N]
 		if nd == nil {
 			rec.Res = "nonode"
@@ -269,6 +273,13 @@ func (c *Cluster) apply(ev Event, rec *Record) {
 			return
 		}
 		c.delMsg(ev.M, rec)
+	case "gc":
+		// every message with id < M is lost
+		for _, id := range append([]int(nil), c.netIDs...) {
+			if id < ev.M {
+				c.delMsg(id, rec)
+			}
+		}
 	case "propose":
 		if !needAlive() {
 			return
@@ -454,11 +465,14 @@ func (c *Cluster) step(nd *nodeRT, ev Event, rec *Record) {
 	if !raft.IsEmptySnap(rd.Snapshot) {
 		nd.waitApply = true
 	}
-	if nd.newLeader {
-		nd.stages = []string{"publish", "send", "psnap", "pents", "phs", "advance"}
-	} else {
-		nd.stages = []string{"publish", "psnap", "pents", "phs", "wait", "send", "advance"}
+	// the rule of node/raft.go shouldPersistBeforeApply (etcd's shouldWaitWALSync), mirrored
+	overlap := false
+	if raft.IsEmptySnap(rd.Snapshot) && len(rd.CommittedEntries) > 0 && len(rd.Entries) > 0 {
+		lc := rd.CommittedEntries[len(rd.CommittedEntries)-1]
+		fu := rd.Entries[0]
+		overlap = lc.Term > fu.Term || (lc.Term == fu.Term && lc.Index >= fu.Index)
 	}
+	nd.stages = CurrentOrder.Stages(nd.newLeader, overlap)
 	// node/raft.go processMessages: only the last MsgAppResp is sent; MsgSnap goes through the
 	// snapshot sender (kept: it is transported with the storage's snapshot meta)
 	msgs := make([]pb.Message, 0, len(rd.Messages))
